@@ -27,4 +27,18 @@ RowsOf(res, gb) == IF gb # <<>> THEN [i \in DOMAIN res.groups |-> Append(res.gro
                    ELSE <<<<res.count>>>>
 ColsOf(gb) == Len(gb) + 1          \* the group-by columns followed by "count"
 
+
+(* ------------------------------ data source names, Exec, transactions ------------------------------ *)
+\* A DSN is abstract: [scheme, preload, lrucache, size]; scheme "file" | "grpc" | "other";
+\* preload / lrucache: "absent" | "true" | "false" | "junk"; size: "absent" | "zero" | "num" | "junk" | "neg".
+\* sql.Open itself never fails; the first use does.  Only the exact string "true" switches an option on.
+DSNUsable(dsn) ==
+  /\ dsn.scheme \in {"file", "grpc"}
+  /\ (dsn.scheme = "file" /\ dsn.lrucache = "true") => dsn.size \in {"zero", "num"}
+\* which index options a usable file DSN selects (observable only through performance, never through answers)
+DSNPreloads(dsn) == dsn.preload = "true"
+DSNCaches(dsn)   == dsn.lrucache = "true"
+\* statements only support queries: Exec is always an error; Begin / Commit / Rollback succeed and change nothing
+ExecOutcome == "err"
+TxOutcome   == "ok"
 =============================================================================
